@@ -260,6 +260,9 @@ def write_evidence(ctx, proof, n_viol):
             "trusted_base": proof["trusted_base"],
             "theorems": proof.get("theorems", []),
             "axioms": proof.get("axioms", {}),
+            # second tie: tie theorems (translation of the working tree == hand model) re-checked on this run;
+            # reported apart from obligations/discharged, which count the property theorems only
+            "translator_tie": proof.get("translator_tie", {}),
         })
     for k, v in ctx.extra.items():
         if k != "rule":
